@@ -27,7 +27,8 @@ import symgen
 import symlib as L
 import vlib
 
-THEOREMS = ["C03_symbol_map_total_partial", "C03_unguarded_range_query_panics", "C03_self_parent_diverges", "C03_nonvacuous",
+THEOREMS = ["C03_symbol_map_total_partial", "C03_unguarded_range_query_panics", "C03_self_parent_diverges_v0",
+            "C03_diamond_exponential_v0", "C03_nonvacuous",
             "C03_panic_sites_inventoried"]
 TRUSTED = [
     "Coq 8.16.1 kernel; vm_compute only in the closed Examples / witnesses",
@@ -63,6 +64,23 @@ STRESS = [
 ]
 
 
+def layered(n, kind):
+    """deep hierarchies in which every layer reaches the previous one along two paths (defect D35: lookups that search an
+    ancestor once per PATH are exponential), followed by a failing field lookup through `let`, a field access on a def,
+    and template-argument type checks that need is_subclass_of to fail after searching every ancestor"""
+    if kind == "dup":
+        s = "class C0 { int a; }\n" + "".join("class C%d : C%d, C%d;\n" % (i, i - 1, i - 1) for i in range(1, n + 1))
+        top = "C%d" % n
+    else:
+        s = "class A0 { int a; }\n" + "".join(
+            "class B%d : A%d; class C%d : A%d; class A%d : B%d, C%d;\n" % (i, i - 1, i, i - 1, i, i, i) for i in range(1, n + 1))
+        top = "A%d" % n
+    s += "def d : %s { let q = 1; let a = 2; }\n" % top
+    s += "def e : %s;\ndefvar v = e.nofield;\ndefvar u = e.a;\n" % top
+    s += "class Z;\nclass W<Z p>;\ndef w : W<e>;\nclass V<%s p>;\ndef z : Z;\ndef y : V<z>;\n" % top
+    return s
+
+
 def std_hints(fs):
     """inlay-hint ranges used when re-running a (shrunk) failing input: whole file, and empty ranges at a few offsets"""
     out = []
@@ -95,6 +113,9 @@ def gen_inputs(ctx):
             add("stress-prefix", [["/w/main.td", p], fs[1]], "/w/main.td")
         for p in symgen.token_edits(s, ctx.rng, 6 if ctx.quick else 40):
             add("stress-edit", [["/w/main.td", p], fs[1]], "/w/main.td")
+    for n in ((30, 40) if ctx.quick else (26, 30, 34, 40)):
+        for kind in ("dup", "diamond"):
+            add("layered-hierarchy", [["/w/main.td", layered(n, kind)]], "/w/main.td")
     return wss, kinds
 
 
